@@ -1,7 +1,7 @@
 // U-sched: the scheduler core under contract (C01-C06, C08, C15, C16, C19 function-level parts).
 //@@ unit U-sched
 //@@ default props=C02 rewrites=R1,R2,R3,R5,R13 ghost="Tracked(h): Tracked<&mut Heap>" ghostarg="Tracked(h)" loopinv="h.wf(), fwd(*old(h), *h)," bodyprelude="broadcast use {lemma_fwd_refl, lemma_fwd_trans, axiom_flag_as_bool};" attr="#[verifier::exec_allows_no_decreases_clause] #[verifier::loop_isolation(false)]"
-//@@ heapmethods state set_state set_err err children children_in next parent siblings task set_task sched_task emit_task_event emit_proc_event eval init run review error exec is_ready emit_task emit_error create_task push root set_data flag set_flag prev start_time update_data outputs is_event_processed prepare is_auto_complete abort_task back_task undo_task redo_task action set_action get_var get_var_or_default dispatch_act backs backs_step create_context set_message_with update arm_cancel do_action dispatch time_millis hooks_snapshot flag_or_false run_hooks_by run_hooks find run_hooks_timeout add_hook_stmts add_hook_catch add_hook_timeout params build_acts dispatch_acts set_emit_disabled set_auto_complete execute tasks_with_timeout_hooks do_tick is_emit_disabled create_message emit_message upsert
+//@@ heapmethods task_by_nid state set_state set_err err children children_in next parent siblings task set_task sched_task emit_task_event emit_proc_event eval init run review error exec is_ready emit_task emit_error create_task push root set_data flag set_flag prev start_time update_data outputs is_event_processed prepare is_auto_complete abort_task back_task undo_task redo_task action set_action get_var get_var_or_default dispatch_act backs backs_step create_context set_message_with update arm_cancel do_action dispatch time_millis hooks_snapshot flag_or_false run_hooks_by run_hooks find run_hooks_timeout add_hook_stmts add_hook_catch add_hook_timeout params build_acts dispatch_acts set_emit_disabled set_auto_complete execute tasks_with_timeout_hooks do_tick is_emit_disabled create_message emit_message upsert
 use vstd::prelude::*;
 use std::sync::Arc;
 verus! {
@@ -688,6 +688,7 @@ impl Process {
 //@@ extract file=acts/src/scheduler/process/process.rs in="impl Process" item="fn do_action" name=Process::do_action props=C05,C07,C02
 //@@ opt noheap=outputs
 //@@ rw R12 `for ( ref key , _ ) in & rets` => `for key in rets.keys_vec().iter()`
+//@@ rw R12 `for ( ref key , $V:id ) in & rets $B:block` => `for key in rets.keys_vec().iter() { let $V = rets.value_ref(key); $B }`
 //@@ spec
         requires old(h).wf()
         ensures
@@ -988,6 +989,12 @@ impl ActTask for Act {
 //@@ end
 //@@ extract file=acts/src/scheduler/process/task/act.rs in="impl ActTask for Act" item="fn next" name=Act::next props=C02,C03,C04,C01,C15
 //@@ opt traitpost
+//@@ spec
+        ensures
+            //# D5-an-act-that-ended-in-success-or-was-skipped-hands-on-to-its-successor [C01,C04]
+            ret is Ok && (old(h).st(old(h).cur) is Skipped || old(h).st(old(h).cur) is Completed)
+                && n_next(old(h).links_rev, *old(h).tasks[old(h).cur].node) is Some
+                ==> ret->Ok_0 && final(h).queue.len() == old(h).queue.len() + 1,
 //@@ loop 1
         invariant
             //# count-bound
